@@ -1164,6 +1164,58 @@ def run_wiring():
     return res
 
 
+GLUE_MODULE = "CvssVerif.Props.SrcGlue"
+GLUE_THEOREMS = ["getTempleteString_is_model", "executeTemplate_is_model", "exportWithString_is_model", "exportWith_is_model"]
+
+
+def run_glue():
+    """regenerate Generated/Glue.lean from the text of the template-export glue of /repo/v3/report (go/glue) and re-check
+    Props/SrcGlue.lean (the translated ExportWith / ExportWithString = the model's exportWith / exportWithString, C19)."""
+    src = os.path.join(core.VERIF, "go", "glue")
+    out = os.path.join(core.BUILD, "glue")
+    dst = os.path.join(core.LEAN, "CvssVerif", "Generated", "Glue.lean")
+    refp = os.path.join(src, "reference.lean")
+    ref = open(refp).read()
+    res = {"status": "not-understood", "note": "", "not_understood": [], "failed": [],
+           "translator": "go/glue (go/parser; statement-by-statement translation of getTempleteString, executeTemplate and the six "
+                         "ExportWith / ExportWithString methods; io.Copy, template Parse and Execute are parameters)"}
+
+    def put(txt):
+        if not os.path.exists(dst) or open(dst).read() != txt:
+            open(dst, "w").write(txt)
+    try:
+        core.sh(["go", "build", "-o", out, "."], cwd=src, env=core.GOENV, timeout=300)
+        if os.path.exists(dst + ".new"):
+            os.remove(dst + ".new")
+        p = core.sh([out, core.REPO, dst + ".new", refp], timeout=120, check=False)
+        txt = p.stdout.strip()
+        res["note"] = txt[-800:]
+        for line in txt.splitlines():
+            if line.startswith("not-understood:"):
+                res["not_understood"] = line.split(":", 1)[1].split()
+        if p.returncode == 0 and txt.endswith("written=true") and os.path.exists(dst + ".new"):
+            new = open(dst + ".new").read()
+            os.remove(dst + ".new")
+            if res["not_understood"]:
+                # a function outside the subset: nothing is claimed in this run (its callers' proofs would be about the reference text)
+                put(ref)
+                return res
+            put(new)
+            ok, log = core.build_lean([GLUE_MODULE])
+            if ok:
+                res["status"] = "proved"
+            else:
+                errs = [l for l in log.splitlines() if l.startswith("error:")]
+                res["note"] = (" | ".join(e[:200] for e in errs))[:1200]
+                res["failed"] = ["template-export glue"]
+                res["status"] = "lost"
+            return res
+    except core.BuildError as e:
+        res["note"] = "go/glue failed: " + str(e)[-600:]
+    put(ref)
+    return res
+
+
 def run_effects():
     """regenerate lean/CvssVerif/Generated/Effects.lean from /repo (write-set facts: translator tie of C15/C16);
     returns the rows that are not what the model assumes (for the report), [] when all is as expected"""
@@ -1587,11 +1639,13 @@ class ExportProp(SimpleProp):
             "four further exports (two succeeding, two failing) on the same report; distinct by op")
     assumptions = ["PARTIAL: text/template itself is not modelled; it is the oracle the harness calls directly",
                    "'nil reader' is the nil interface; a typed nil pointer inside a non-nil io.Reader is a reader that panics (not covered)"]
-    trusted_base = TB_COMMON + ["text/template as reference engine inside the harness"]
+    trusted_base = TB_COMMON + ["text/template as reference engine inside the harness",
+                                "go/glue (go/parser translator of the export glue into Generated/Glue.lean, re-run on every check) and the behaviour "
+                                "it assumes of io.Copy, template.Parse and Template.Execute (Model/GlueRt.lean)"]
 
     def ops(self, tier, rng):
         from . import vec
-        n = 1500 if tier == "quick" else 200000
+        n = {"quick": 1500, "escalated": 15000}.get(tier, 200000)
         vecs = ["CVSS:3.1/AV:N/AC:L/PR:N/UI:N/S:C/C:H/I:H/A:H", "CVSS:3.0/AV:L/AC:H/PR:L/UI:R/S:U/C:L/I:N/A:H/E:F/RL:W/RC:R/CR:H/MAV:N/MS:C"]
         ops = []
         modes = ["string", "reader", "chunked", "nilreader", "nilreport", "fail:0", "fail:3", "held", "heldreader",
